@@ -429,7 +429,7 @@ pub fn run(ctx: &Ctx, evidence: Option<&PathBuf>) -> i32 {
     ctx.run_cases("fault-points", n, |c| enumerate(c, scale));
     // (not under Miri: one such connection is several hundred KB through the interpreter)
     if !ctx.miri() {
-        let nb = ctx.dn(ctx.size3(16, 300, 1));
+        let nb = ctx.dn(ctx.size3(16, 100, 1));
         ctx.run_cases("big-record-seams", nb, |c| enumerate_big(c, scale));
         ctx.gate("big_record_seam_eof_offsets", 100);
         ctx.gate("big_record_bases_with_reading_handlers", 1);
